@@ -197,7 +197,7 @@ def configs(tier, seed):
                             "name": name, "mlen": n, "build": {"what": what, "name": name}})
     seen = set()
     for a in cc.atoms(tier, seed):
-        b = {k: v for k, v in a.items() if k not in ("vlen", "sidx")}
+        b = {k: v for k, v in a.items() if k not in ("vlen", "sidx", "slen")}
         key = json.dumps(b, sort_keys=True)
         if key in seen:
             continue
